@@ -25,7 +25,9 @@ LEVEL = 'exploration'
 RULE = ('Hypothesis builtin sweep: every name in the live FUNCTIONS table called with 0-4 arguments drawn from per-builtin '
         'shape tables (4/5) or an untyped hostile pool (1/5): scalars, nested lists/tuples/dicts, lambdas, builtins as '
         'values, attribute-/format-/path-like strings; one argument may itself be another builtin call; embedded in 10 '
-        'program forms (store, index, call the result, pipe, map body...); 1 in 12 evaluated on a fresh worker thread with '
+        'program forms (store, index, call the result, pipe, map body...); 1 call in 5 is a well-formed call with one argument '
+        'swapped for a callable and up to two extra arguments; the shared parser earlier served failing calls that bound host '
+        'callables returning modules (fetch9), which later programs try to reach; 1 in 12 evaluated on a fresh worker thread with '
         'the parser built on the main thread. Plus typed programs. Host names hold plain data '
         'only. Oracle: every node result, the final result and final names contain only None/bool/int/float/Decimal/str/'
         'list/tuple/dict/slice, table entries and lambdas created in the run; no flagged audit event during eval. '
@@ -45,6 +47,11 @@ def parser():
         from smartquery import SqParser
         _parser = SqParser()
     return _parser
+
+
+def host_leak(*a):
+    """what a host function of some OTHER call may legitimately return: not plain data"""
+    return os
 
 
 def setup_worker():
@@ -71,6 +78,13 @@ def setup_worker():
                 'x = {"a": [1]}; x["a"] += [2]; pretty(x)', 'match_all("ab", "(a)(b)")', 'match_groups("ab", "(?i)(A)")']:
         try:
             p.eval(src, {})
+        except Exception:  # noqa
+            pass
+    # earlier, unrelated calls of the same host on the same parser bound callables that hand out non-plain objects; those calls
+    # failed in various ways.  Nothing of them may be reachable from later calls that bind plain data only.
+    for src in ('fetch9(', 'fetch9 $', 'fetch9(1) + undefined_zz', 'x = fetch9\ny = (', 'fetch9(1)[0]', 'f = v => fetch9(v)\nf(', '[1, 2] | map(v => fetch9(v) + nofn9(v))'):
+        try:
+            p.eval(src, {'fetch9': host_leak, 'leak9': host_leak}, max_ops_evaluated=30)
         except Exception:  # noqa
             pass
     AUDIT.install(os.path.dirname(smartquery.__file__))
@@ -231,7 +245,7 @@ EXTRA_ARGS = ['cp1251', 'koi8_r', 'utf-16', 'rot13', 'idna', 'base64', 'hex', 'z
 
 def build_call(a, name, names, depth=0):
     """source of one call; plain-data arguments are bound to fresh host names"""
-    args = a.call(name)
+    args = a.call(name, perturb=5)
     if a.n(6) == 0:
         # optional / extra trailing arguments: a builtin must not grow dangerous optional parameters
         args = list(args) + [a.pick(EXTRA_ARGS) for _ in range(1 + a.n(2))]
@@ -255,7 +269,7 @@ def build_call(a, name, names, depth=0):
     return f'{name}({", ".join(parts)})', interesting
 
 
-UNKNOWN_NAMES = ['__class__', '__iter__', '__getattribute__', '__init__', '__dict__', '__reduce__', 'encode', 'title', 'format', 'zfill',
+UNKNOWN_NAMES = ['fetch9', 'leak9', 'fetch9', 'f', 'x', '__class__', '__iter__', '__getattribute__', '__init__', '__dict__', '__reduce__', 'encode', 'title', 'format', 'zfill',
                  'join', 'keys', 'append', 'copy', 'items', 'count', '__globals__', '__call__', 'real', 'as_tuple', 'to_eng_string', 'clear',
                  'setdefault', 'update', 'sort', 'isdigit', 'splitlines', 'partition', '__len__', '__getitem__9', 'open', 'eval', 'exec',
                  '__import__', 'getattr', 'type', 'vars', 'dir', 'globals', 'iter', 'next', 'zip', 'range', 'print', 'input']
